@@ -158,9 +158,30 @@ def c13_2(ctx: Ctx) -> RuleResult:
                 ok, why = False, f"`{key}` is computed from `{lname}` / `{uname}` (swapped sides or wrong family)"
         res.add(pi, n, f"{key} == max(-{fam}_lower where negative, {fam}_upper where positive, 0)", ok, why, construct=f"{key}")
         # guard: both diffs present
-        g = parent(n)
-        ok = isinstance(g, ast.If) and f"{fam}_lower" in ast.unparse(g.test) and f"{fam}_upper" in ast.unparse(g.test)
-        res.add(pi, n, f"{key} is computed whenever both differences exist", ok, "" if ok else "violation guarded by another family's fields", construct=f"{key}: guard")
+        from ..util import bool_nnf, path_condition
+
+        lits = []
+        for t_, pol in path_condition(ctx, pi, n):
+            gq = bool_nnf(t_ if pol else ("unary", "not", t_))
+            lits.extend(gq[1] if gq[0] == "and" else [gq])
+        present, extra = set(), []
+        for it in lits:
+            a = it[1] if it[0] == "lit" else None
+            fld = None
+            if a is not None and a[0] == "cmp" and a[1] in ("is", "is not") and C(None) in (a[2], a[3]) and (it[2] == (a[1] == "is not")):
+                fld = _field_of(a[3] if a[2] == C(None) else a[2], selfp)
+            if fld in (f"{fam}_lower", f"{fam}_upper"):
+                present.add(fld)
+            else:
+                extra.append(it)
+        ok = len(present) == 2 and not extra
+        why = ""
+        if len(present) < 2:
+            why = "the computation is not guarded by the presence of both differences of this family"
+        elif extra:
+            why = (f"computed only under the extra condition `{show(extra[0][1], 70) if extra[0][0] == 'lit' else extra[0][0]}`: a violation handed in "
+                   "(e.g. by a domain transform that rebuilds the object from its fields) is kept instead of being derived from the differences")
+        res.add(pi, n, f"{key} is computed whenever, and only depending on whether, both differences exist", ok, why, construct=f"{key}: guard")
     res.floor = 6
     return res
 
@@ -340,4 +361,18 @@ def c13_5(ctx: Ctx) -> RuleResult:
     for i in r.instances:
         i.rule = "C13.5"
     r.rule, r.title = "C13.5", "a result is treated as feasible iff every reported violation is within the tolerance"
+    return r
+
+
+@rule(P)
+def c13_6(ctx: Ctx) -> RuleResult:
+    """Shared with C11.2: the differences reported in the user domain are the optimizer-domain differences
+    mapped back by the scaler's companion maps (scales on bound differences, row scaling on linear ones)."""
+    from .c11 import c11_2
+
+    r = c11_2(ctx)
+    r.instances = [i for i in r.instances if "diffs" in i.construct]
+    for i in r.instances:
+        i.rule = "C13.6"
+    r.rule, r.title, r.floor = "C13.6", "user-domain differences: bound differences * scales, linear differences * row scaling, each under the test of the field it applies", 2
     return r
